@@ -146,6 +146,7 @@ type Sim struct {
 	rootCtx  context.Context
 	cancel   context.CancelFunc
 	hmu      sync.Mutex // harness critical sections (Crit)
+	pmu      sync.Mutex // probes
 }
 
 var cur *Sim
@@ -1108,7 +1109,14 @@ func Probe(name string) {
 	if s == nil {
 		return
 	}
-	Crit(func() { s.probes[name]++ })
+	// own lock (not Crit's): Probe may be called from inside a Crit section
+	raceDisable()
+	s.pmu.Lock()
+	raceEnable()
+	s.probes[name]++
+	raceDisable()
+	s.pmu.Unlock()
+	raceEnable()
 }
 
 // Crit runs f under the harness lock without creating a happens-before edge
